@@ -144,10 +144,22 @@ def prove(modules, extra_sources=()):
 
 
 def load_known():
+    """known_findings.json (merged file) and known_findings/<id>.json (per property)"""
+    out = []
     p = os.path.join(VERIF, "known_findings.json")
-    if not os.path.exists(p):
-        return []
-    return json.load(open(p)).get("findings", [])
+    if os.path.exists(p):
+        out += json.load(open(p)).get("findings", [])
+    d = os.path.join(VERIF, "known_findings")
+    if os.path.isdir(d):
+        for fn in sorted(os.listdir(d)):
+            if fn.endswith(".json"):
+                out += json.load(open(os.path.join(d, fn)))
+    seen, res = set(), []
+    for k in out:
+        key = (k.get("property"), k.get("signature"), k.get("status"))
+        if key not in seen:
+            seen.add(key); res.append(k)
+    return res
 
 
 def write_evidence(pid, ev):
